@@ -160,6 +160,8 @@ def cases(draw):
         "fail": sorted(draw(st.sets(st.integers(0, 9), max_size=6))) if use_flaky else [],
         "minimize": draw(st.sampled_from(OBJECTIVES)),
         "post": post,
+        # sometimes a second, different, post-processing stage chained on top
+        "post2": draw(st.sampled_from(["none", "none", "slicing", "reconf", "slicing_reconf", "anneal"])),
         "post_div": draw(st.sampled_from([2, 4])),
         "max_repeats": draw(st.integers(1, 8)),
         "executor": executor,
@@ -207,22 +209,24 @@ def run_case(spec, sub=None):
     tsize = max(1, base.max_size() // spec["post_div"])
     kw = {}
     post = spec["post"]
-    if post == "slicing":
-        kw["slicing_opts"] = {"target_size": tsize, "max_repeats": 2}
-    elif post == "reconf":
-        kw["reconf_opts"] = {"subtree_size": 4, "maxiter": 3}
-    elif post == "reconf_forest":
-        kw["reconf_opts"] = {
-            "forested": True, "num_trees": 2, "num_restarts": 1,
-            "subtree_maxiter": 2, "subtree_size": 4, "parallel": False,
-        }
-    elif post == "slicing_reconf":
-        kw["slicing_reconf_opts"] = {
-            "target_size": tsize, "max_repeats": 2,
-            "reconf_opts": {"subtree_size": 4, "maxiter": 2},
-        }
-    elif post == "anneal":
-        kw["simulated_annealing_opts"] = {"tsteps": 2, "numiter": 2, "seed": spec["seed"]}
+    posts = [post] + ([spec.get("post2", "none")] if post != "none" else [])
+    for pp in posts:
+        if pp == "slicing":
+            kw["slicing_opts"] = {"target_size": tsize, "max_repeats": 2}
+        elif pp == "reconf" and "reconf_opts" not in kw:
+            kw["reconf_opts"] = {"subtree_size": 4, "maxiter": 3}
+        elif pp == "reconf_forest":
+            kw["reconf_opts"] = {
+                "forested": True, "num_trees": 2, "num_restarts": 1,
+                "subtree_maxiter": 2, "subtree_size": 4, "parallel": False,
+            }
+        elif pp == "slicing_reconf":
+            kw["slicing_reconf_opts"] = {
+                "target_size": tsize, "max_repeats": 2,
+                "reconf_opts": {"subtree_size": 4, "maxiter": 2},
+            }
+        elif pp == "anneal":
+            kw["simulated_annealing_opts"] = {"tsteps": 2, "numiter": 2, "seed": spec["seed"]}
 
     pool = None
     tp = None
@@ -259,7 +263,7 @@ def run_case(spec, sub=None):
     finally:
         if tp is not None:
             tp.shutdown(wait=True)
-    cls = [f"exec={spec['executor']}", f"post={post}", f"minimize={spec['minimize']}", f"optlib={spec.get('optlib', 'random')}"]
+    cls = [f"exec={spec['executor']}", f"post={post}", f"minimize={spec['minimize']}", f"optlib={spec.get('optlib', 'random')}", f"stages={len(kw)}"]
     nfinite = 0
     if not ok:
         # accepted only if every trial failed
